@@ -46,4 +46,46 @@ def trySkeleton (inTryBefore : Bool) (posArgs posAfterArgs jumpPos catchStart : 
   ++ [emitOp .EndFinally]
 
 
+def reportErr (e : Fns.CompilerError) : Rs.Eff := ⟨"self.compiler_error", [.s (Fns.CompilerError.name e)]⟩
+def emitJump (o : Fns.OpCode) : Rs.Eff := ⟨"self.emit_jump", [.s (Fns.OpCode.name o)]⟩
+def patchJump (pos : Int) : Rs.Eff := ⟨"self.patch_jump", [.i pos]⟩
+def scopeEndTo (depth : Int) : Rs.Eff := ⟨"self.emit_scope_end", [.b false, .i depth]⟩
+
+/-- `break`: the locals of the scopes inside the loop are discarded (down to the depth the loop was entered at) BEFORE the jump out; the
+jump is registered with the innermost loop; outside a loop there is nothing to discard and the registration fails (reported). -/
+def breakSkeleton (header : Option (Int × Int)) (breakPos : Int) (pushed : Except Fns.CompilerError Unit) : List Rs.Eff :=
+  [call0 "self.compiler().current_loop_header"]
+    ++ (match header with | some (_, depth) => [scopeEndTo depth] | none => [])
+    ++ [emitJump .Jump, ⟨"self.compiler().push_break", [.i breakPos]⟩]
+    ++ (match pushed with | .ok _ => [consume .SemiColon "Expected ';' after 'break'."] | .error e => [reportErr e])
+
+/-- `continue`: the same discarding, then a backward jump to the start of the innermost loop; an error outside a loop. -/
+def continueSkeleton (header : Option (Int × Int)) : List Rs.Eff :=
+  [call0 "self.compiler().current_loop_header"]
+    ++ (match header with
+        | some (start, depth) => [scopeEndTo depth, ⟨"self.emit_loop", [.i start]⟩, consume .SemiColon "Expected ';' after 'continue'."]
+        | none => [⟨"self.error", [.s "Cannot use 'continue' statement outside of loop body."]⟩])
+
+/-- `while`: the loop is entered in the compiler's bookkeeping first; the condition is compiled at `loopStart` (the code length then);
+the condition value is popped on both ways out of the test; the body is a scope; the backward jump goes to `loopStart`; the exit jump is
+patched behind it; leaving the loop patches the registered breaks (a jump too far is reported). -/
+def whileSkeleton (loopStart exitJump : Int) (popped : Except Fns.CompilerError Unit) : List Rs.Eff :=
+  [call0 "self.compiler().push_loop", call0 "self.expression", emitJump .JumpIfFalse, emitOp .Pop,
+   consume .LeftBrace "Expected '{' after condition.", call0 "self.begin_scope", call0 "self.block", call0 "self.end_scope",
+   ⟨"self.emit_loop", [.i loopStart]⟩, patchJump exitJump, emitOp .Pop, call0 "self.compiler().pop_loop"]
+    ++ (match popped with | .ok _ => [] | .error e => [reportErr e])
+
+/-- `if`: the condition value is popped on both branches; the jump over the else branch is emitted behind the then block and patched at
+the very end; `else` must be followed by `if` or a block. -/
+def ifSkeleton (thenJump elseJump : Int) (haveElse startsOk : Bool) : List Rs.Eff :=
+  [call0 "self.expression", emitJump .JumpIfFalse, emitOp .Pop,
+   consume .LeftBrace "Expected '{' after condition.", call0 "self.begin_scope", call0 "self.block", call0 "self.end_scope",
+   emitJump .Jump, patchJump thenJump, emitOp .Pop, matchTok .Else]
+    ++ (if haveElse then
+          [(⟨"self.check_any", [.s "&[TokenKind::If,TokenKind::LeftBrace]"]⟩ : Rs.Eff)]
+            ++ (if startsOk then [] else [⟨"self.error_at_current", [.s "Expected '{' after 'else'."]⟩])
+            ++ [call0 "self.statement"]
+        else [])
+    ++ [patchJump elseJump]
+
 end Yarel.StmtSkeleton
